@@ -113,6 +113,8 @@ def sx(term) -> str:
     """serialise for the Lean drivers: time presentations (`@...`) and the query type of a
     `noop` are stripped — the Lean side sees instants and a single `noop`."""
     if isinstance(term, str):
+        if term.startswith("now:"):
+            return term[4:]
         return term.split("@")[0] if "@" in term else term
     if term and term[0] == "noop":
         return "(noop)"
@@ -310,6 +312,13 @@ def build_point(t, tf):
     assert t[0] == "pt"
     tags = {unhx(k): opt_str(v) for k, v in t[3][1:]}
     fields = {unhx(k): parse_num(v) for k, v in t[4][1:]}
+    if t[1].startswith("now:"):
+        # a point without a time (only a bare Point() has none): the database stamps it on insert
+        p = tf.Point()
+        p.measurement = unhx(t[2])
+        p.tags = tags
+        p.fields = fields
+        return p
     return tf.Point(
         time=parse_time_atom(t[1]), measurement=unhx(t[2]), tags=tags, fields=fields
     )
